@@ -43,7 +43,24 @@ InstId string_to_inst_id(const char* s, size_t len) noexcept {
     return BaseInst::kIdNone;
   }
 
-  return InstNameUtils::find_instruction(s, len, InstDB::_inst_name_index_table, InstDB::_inst_name_string_table, InstDB::_inst_name_index);
+  InstId inst_id = InstNameUtils::find_instruction(s, len, InstDB::_inst_name_index_table, InstDB::_inst_name_string_table, InstDB::_inst_name_index);
+  if (inst_id != BaseInst::kIdNone) {
+    return inst_id;
+  }
+
+  // The AArch64 instruction ids are not ordered by name (general purpose ids come first, SIMD ids follow, and names
+  // with numeric suffixes are ordered numerically), so the per-letter spans of `_inst_name_index` are not sorted
+  // ranges and the binary search above misses names. Fall back to a scan of the whole table.
+  StringTmp<32> name;
+  for (uint32_t id = 1; id < uint32_t(Inst::_kIdCount); id++) {
+    name.clear();
+    if (InstNameUtils::decode(InstDB::_inst_name_index_table[id], InstStringifyOptions::kNone, InstDB::_inst_name_string_table, name) == Error::kOk &&
+        name.size() == len && memcmp(name.data(), s, len) == 0) {
+      return InstId(id);
+    }
+  }
+
+  return BaseInst::kIdNone;
 }
 #endif // !ASMJIT_NO_TEXT
 
